@@ -32,7 +32,7 @@ TIMEOUT = {"quick": 900, "thorough": 3400}
 
 
 def gen_cases(tier: str, seed: int) -> list[dict[str, Any]]:
-    n = 32 if tier == "quick" else 800
+    n = 32 if tier == "quick" else 5000
     return [dict(seed=seed, idx=i) for i in range(n)]
 
 
